@@ -110,7 +110,9 @@ def verify(contract, module, qualname, variant=None, timeout_ms=10000):
                 o["status"] = "unproved"
                 o["detail"] = "[proof lost: %s not discharged] %s" % (support[0]["id"].split(":", 1)[1], o["detail"])
         out.append({"_prooflost": fnid, "reason": "%d proof-support obligation(s) not discharged, first: %s" % (len(support), support[0]["id"])})
-    out.append({"_stats": dict(v_functions=1, v_vcs=len(vcs), v_time=round(time.time() - t0, 3))})
+    out.append({"_stats": dict(v_functions=1, v_vcs=len(vcs), v_time=round(time.time() - t0, 3), v_callsite_contract_uses=getattr(eng, "callsite_uses", 0),
+                               v_facts_assumed_from_callee_contracts=getattr(eng, "assumed_facts", 0),
+                               v_obligations_raised_at_call_sites=getattr(eng, "callsite_obligations", 0))})
     return out
 
 
